@@ -46,6 +46,7 @@ type FnReport struct {
 	Contracts   []string `json:"verified_contracts_used,omitempty"`
 	Intrinsics  []string `json:"intrinsics_exact,omitempty"`
 	PureCalls   []string `json:"pure_frame_calls_result_havocked,omitempty"`
+	ConstGlobals []string `json:"package_vars_treated_as_constants,omitempty"`
 }
 
 func newFnTrans(w *World, fn *ssa.Function, con *Contract) *FnTrans {
@@ -54,7 +55,7 @@ func newFnTrans(w *World, fn *ssa.Function, con *Contract) *FnTrans {
 		edgeCond: map[[2]int]string{}, idxTerms: map[string]bool{}, elemIdx: map[string]bool{}, nameCnt: map[string]int{},
 		unknownCalls: map[string]int{}, assumedUsed: map[string]bool{}, contractsUsed: map[string]bool{}, params: map[string]Val{},
 		siteCount: map[string]int{}, strLits: map[string]string{}, typeTags: map[string]int{}, compSorts: map[string]string{},
-		intrinsicsUsed: map[string]bool{}, pureCalls: map[string]int{}, sitesMatched: map[*SiteSpec]bool{}}
+		constArrs: map[string]string{}, globalsUsed: map[string]bool{}, intrinsicsUsed: map[string]bool{}, pureCalls: map[string]int{}, sitesMatched: map[*SiteSpec]bool{}}
 	if con != nil {
 		t.mode = con.Mode
 	}
@@ -208,7 +209,7 @@ func runCheck(o CheckOpts) int {
 		}
 		fr := FnReport{Package: c.PkgPath, Function: c.Key, Mode: t.mode.String(), Requires: len(c.Requires), Ensures: len(c.Ensures), Safe: c.Safe, Lemma: c.Lemma,
 			Sites: len(c.Sites), Abstracted: t.abstractions, Unknown: keysOfInt(t.unknownCalls), Assumed: keysOf(t.assumedUsed), Contracts: keysOf(t.contractsUsed),
-			Intrinsics: keysOf(t.intrinsicsUsed), PureCalls: keysOfInt(t.pureCalls)}
+			Intrinsics: keysOf(t.intrinsicsUsed), PureCalls: keysOfInt(t.pureCalls), ConstGlobals: keysOf(t.globalsUsed)}
 		for _, l := range c.Loops {
 			fr.Invariants += len(l.Invariants)
 		}
@@ -339,7 +340,16 @@ func finishCheck(o CheckOpts, w *World, reports []*OblReport, fnReports []FnRepo
 			continue
 		}
 		if f := kf.match(o.Prop, r.Name); f != nil {
-			// the finding is listed: it must still be the recorded one
+			// the finding is listed: outside the recorded input class the obligation must still hold
+			if f.Class != "" {
+				if ok, why := r.ft.holdsOutsideClass(r.obl, f.Class, o); !ok {
+					path := writeReplay(o, w, r)
+					fmt.Printf("VIOLATION property=%s replay=%s obligation=%s result=%s outside-known-class (%s) no-failing-input-found\n", o.Prop, path, r.Name, r.Result, why)
+					violations = append(violations, r.Name)
+					exit = 1
+					continue
+				}
+			}
 			r.Status = "known-finding"
 			knownSeen = append(knownSeen, r.Name)
 			fmt.Printf("KNOWN-FINDING: property=%s %s: %s\n", o.Prop, r.Name, f.What)
@@ -459,3 +469,33 @@ func propAssumptions(prop string, w *World, frs []FnReport) []string {
 }
 
 var _ = types.Typ
+
+// holdsOutsideClass re-proves a failed obligation under the negation of the
+// recorded failing-input class of a known finding.
+func (t *FnTrans) holdsOutsideClass(ob *Obl, class string, o CheckOpts) (bool, string) {
+	c, err := parseExprClause("class", class, "known_findings.json", 0)
+	if err != nil {
+		return false, err.Error()
+	}
+	env := t.entryEnv(t.entry0)
+	term, err := t.Formula(Formula{Clause: c, Env: env}, true)
+	if err != nil {
+		return false, err.Error()
+	}
+	saved := ob.ExtraAssume
+	ob.ExtraAssume = and(saved, not(term))
+	if saved == "" {
+		ob.ExtraAssume = not(term)
+	}
+	defer func() { ob.ExtraAssume = saved }()
+	dir, err := os.MkdirTemp("", "govc-kf-")
+	if err != nil {
+		return false, err.Error()
+	}
+	defer os.RemoveAll(dir)
+	res := solve(dir, ob.Name+".outside", t.Query(ob, nil), o.Timeout, false)
+	if res.Result == "unsat" {
+		return true, ""
+	}
+	return false, "result " + res.Result + " under !(" + class + ")"
+}
